@@ -8,8 +8,9 @@ from . import common, gen, cli, realrun
 PKGS = ["", "a", "a/b", "c-d"]
 
 
-def std_project(scroot, name="p", rng=None, rich_outputs=False, disable_git=True, hostile=None):
-    """experiments in nested packages, a run_command and a combine in between"""
+def std_project(scroot, name="p", rng=None, rich_outputs=False, disable_git=True, hostile=None, extend_seed=None):
+    """experiments in nested packages, a run_command and a combine in between; extend_seed adds a random acyclic
+    extension (experiments x0.. over the fixed ones, a group //:rx listing a shuffled mix of everything)"""
     T = gen.mk_task
     tasks = [
         T("", "e1", "run_experiment", par=True, args=[1, "x"], options={"k": 2.5}),
@@ -27,6 +28,19 @@ def std_project(scroot, name="p", rng=None, rich_outputs=False, disable_git=True
         T("c-d", "solo", "run_command"),
         T("", "plain", "group", ["//c-d:solo"]),
     ]
+    if extend_seed is not None:
+        import random
+        xr = random.Random("stdx-%s" % extend_seed)
+        pool = ["//:e1", "//a:e2", "//a/b:e3", "//a:c1"]
+        xs = []
+        for j in range(xr.randint(2, 4)):
+            cand = pool + xs
+            deps = xr.sample(cand, xr.randint(0, min(3, len(cand))))
+            t = T(xr.choice(PKGS), "x%d" % j, xr.choice(["run_experiment", "run_experiment", "run_command"]), deps, par=xr.random() < 0.5)
+            tasks.append(t)
+            xs.append(t["id"])
+        mix = xr.sample(pool + xs, xr.randint(2, len(pool) + len(xs)))
+        tasks.append(T("", "rx", "group", mix))
     scripts = {}
     for t in tasks:
         if t["kind"] in gen.PROC_KINDS:
@@ -54,7 +68,7 @@ def run_history(pr, rng, nsteps, base_scripts=None, clock_base=None):
             for x in fail:
                 pr.scripts[x]["exit"] = 3
         pr.write_scn()
-        tgt = rng.choice(["//:g", "//:g", "//:dd", "//a/b:e3", "//:e1", "//c-d:e4", "//:k"])
+        tgt = rng.choice(["//:g", "//:g", "//:dd", "//a/b:e3", "//:e1", "//c-d:e4", "//:k"] + (["//:rx"] * 4 if "//:rx" in pr.tb else []))
         argv = ["run", tgt] + (["--again"] if rng.random() < 0.5 else []) + (["-j", "3"] if rng.random() < 0.5 else [])
         r = pr.cond(argv, timeout=120, **({"clock": [clock_base + 50 * i]} if clock_base is not None else {}))
         log.append({"argv": argv, "fail": fail, "exit": r.code})
